@@ -53,6 +53,12 @@ func engineProgram(db []J) (string, map[string]bool) {
 			fmt.Fprintf(&sb, ":- dynamic(%s/%d).\n", jt.Atom(key[0].(string)), jt.Int(key[1]))
 		}
 		cls, _ := pr["cls"].([]J)
+		if k == "deep/0" && opt("deep") == "1" {
+			// the specification's fact deep/0 as a deterministic recursion 2 500 levels deep (the auxiliary predicate is no
+			// predicate of the case: its call ports are not recorded)
+			sb.WriteString("deep :- vh_walk(2500).\nvh_walk(N) :- N =< 0, !.\nvh_walk(N) :- M is N - 1, vh_walk(M).\n")
+			continue
+		}
 		for _, c := range cls {
 			cl := c.(map[string]J)
 			body := cl["body"]
